@@ -173,9 +173,10 @@ structure InvS (s : St) (nc : Option Id) : Prop where
   closing : ∀ i, i ∈ s.closing → s.clients i ≠ none
   ncLive : ∀ i, nc = some i → ∃ c, s.clients i = some c ∧ c.hasCb = false
   noFault : s.fault = false
+  ncBig : ∀ i, nc = some i → 1000 ≤ i
 
 theorem invS_init : InvS init none := by
-  refine ⟨?_, ?_, ?_, ?_, ?_, ?_⟩ <;> simp [init, lookup]
+  refine ⟨?_, ?_, ?_, ?_, ?_, ?_, ?_⟩ <;> simp [init, lookup]
 
 /-- everything but the two poll tables is unchanged -/
 def SameX (s s' : St) : Prop :=
